@@ -242,8 +242,8 @@ theorem fillExplicit_spec {agg : Agg} {enc : List (Str × (Kind × Nat))} (L : L
         exact ⟨nm, k', by simp [hm'], hq'⟩
 
 /-- the explicit imports `resolveExplicit` records: `(name, node)` for every import node of the list -/
-theorem resolveExplicit_spec {g : GraphVal} (ns : List Nat) {a a' : Agg} {ex ex' : List (Str × Nat)}
-    (h : resolveExplicit g ns a ex = .ok (a', ex')) :
+theorem resolveExplicit_spec {g : GraphVal} {first : List (Str × Nat)} (ns : List Nat) {a a' : Agg} {ex ex' : List (Str × Nat)}
+    (h : resolveExplicit g first ns a ex = .ok (a', ex')) :
     ∃ X, ex' = ex ++ X ∧ (∀ name n, (name, n) ∈ X → ∃ nd, g.node? n = some nd ∧ nd.kind = .import name) ∧
       (∀ n ∈ ns, isImportNode g n = true → n ∈ X.map (·.2)) := by
   induction ns generalizing a ex with
@@ -392,7 +392,7 @@ theorem encodeImports_inv {g : GraphVal} {o : Opts} (wf : WF g) (importNodes : L
   | panic s => simp [hr] at he
   | ok r =>
     simp only [hr] at he hagg
-    cases hx : resolveExplicit g importNodes r.agg [] with
+    cases hx : resolveExplicit g r.first importNodes r.agg [] with
     | error e => simp [hx] at he
     | panic s => simp [hx] at he
     | ok ae =>
